@@ -7,6 +7,7 @@
 #include <limits>
 #include <type_traits>
 
+#include "rlbox_helpers.hpp"
 #include "rlbox_types.hpp"
 
 namespace rlbox::detail {
@@ -28,6 +29,16 @@ inline bool ptr_offset_fits_address_space(T_Int count, size_t stride)
   return magnitude <= limit;
 }
 
+// Computes the size in bytes of count elements of elem_size bytes, making sure
+// that the product does not overflow
+inline size_t checked_range_size(size_t count, size_t elem_size)
+{
+  detail::dynamic_check(elem_size == 0 ||
+                          count <= std::numeric_limits<size_t>::max() / elem_size,
+                        "range size overflows");
+  return count * elem_size;
+}
+
 // Checks that a given range is either entirely in a sandbox or entirely
 // outside
 template<typename T_Sbx>
@@ -39,6 +50,10 @@ inline void check_range_doesnt_cross_app_sbx_boundary(const void* ptr,
     ptr_start_val,
     "Performing memory operation memset/memcpy on a null pointer");
   auto ptr_end_val = ptr_start_val + size - 1;
+  // An extent that wraps around the end of the address space can never lie
+  // inside a sandbox (or outside all of them)
+  detail::dynamic_check(size == 0 || ptr_end_val >= ptr_start_val,
+                        "range wraps around the address space");
 
   auto ptr_start = reinterpret_cast<void*>(ptr_start_val);
   auto ptr_end = reinterpret_cast<void*>(ptr_end_val);
